@@ -97,10 +97,14 @@ def check_config(acc, assign, package, ref):
         acc.hook("unspecified-namespace-reference")
         return
     src = ".".join(ref)
-    benv = {".".join(n): MV.to_cel(v) for n, v in bindings.items()}
+    benv0 = {".".join(n): MV.to_cel(v) for n, v in bindings.items()}
     if info["competing"] >= 2 or package or info["longer_exists"]:
         acc.nt(["cfg", assign, package, src])
-    for r in "IC":
+    # the activation is a mapping: its iteration order must not matter (short names first, long names first)
+    orders = [("short-first", benv0)]
+    if len(benv0) >= 2:
+        orders.append(("long-first", dict(reversed(list(benv0.items())))))
+    for (order, benv), r in itertools.product(orders, "IC"):
         out = core.api_eval(r, src, benv, package=package or None)
         acc.hook("evaluate:" + r)
         acc.evaluations += 1
@@ -108,13 +112,15 @@ def check_config(acc, assign, package, ref):
         acc.cell("resolve", r, "pkg%d" % (package.count(".") + 1 if package else 0), "level%d" % info["level"], "competing%d" % info["competing"], exp[0], "ok" if ok else "differ")
         if not ok:
             oc = diag.oclass(out).split('@')[0]
-            if info["longer_exists"]:
+            if order != "short-first" and agrees(core.api_eval(r, src, benv0, package=package or None), exp):
+                slug = f"{r} resolve depends-on-binding-order obs={oc} exp={'E' if exp[0] == 'E' else 'V:' + exp[1][0]}"
+            elif info["longer_exists"]:
                 slug = f"{r} resolve a-longer-bound-name-shares-the-root obs={oc} exp={'E' if exp[0] == 'E' else 'V:' + exp[1][0]}"
             else:
                 slug = f"{r} resolve ref-len={len(ref)} pkg-depth={package.count('.') + 1 if package else 0} winner-len={info.get('wins', '-')} competing={min(info['competing'], 2)} obs={oc} exp={'E' if exp[0] == 'E' else 'V:' + exp[1][0]}"
             acc.violation(
                 slug,
-                f"{'interpreted' if r == 'I' else 'compiled'}: reference {src!r} package={package!r} bindings={ {'.'.join(n): v for n, v in bindings.items()} !r:.200} gave {core.jkey(out)[:90]}, expected {str(exp)[:90]}",
+                f"{'interpreted' if r == 'I' else 'compiled'}: reference {src!r} package={package!r} order={order} bindings={ {'.'.join(n): v for n, v in bindings.items()} !r:.200} gave {core.jkey(out)[:90]}, expected {str(exp)[:90]}",
                 {"kind": "resolve", "assign": list(assign), "package": package, "ref": list(ref), "runner": r},
             )
 
@@ -178,12 +184,20 @@ def gen_nest(rnd, depth, visible, names):
     kind = rnd.choice(["map", "map", "filter", "exists", "all", "exists_one"])
     base = rnd.randint(1, 3) * 10 ** (depth + 1)
     lst = Node("list", ("list", "int"), *[Node("lit", "int", ("int", base + i)) for i in range(rnd.choice([1, 2, 2, 3, 3]))])
+    if rnd.random() < 0.3:
+        # chained macros: the range is itself a macro with (usually) another variable name
+        v2 = rnd.choice(names)
+        vis2 = dict(visible)
+        vis2[v2] = "int"
+        lst = Node("macro", ("list", "int"), "map", lst, v2, Node("bin", "int", "+", use(rnd, vis2), Node("lit", "int", ("int", 1))))
+        n_items = len(lst.a[1].a)
+    else:
+        n_items = len(lst.a)
     inner_visible = dict(visible)
     inner_visible[var] = "int"
     body_val = Node("bin", "int", "+", use(rnd, inner_visible), gen_nest(rnd, depth - 1, inner_visible, names)) if rnd.random() < 0.8 else gen_nest(rnd, depth - 1, inner_visible, names)
     if kind == "map":
         m = Node("macro", ("list", "int"), "map", lst, var, body_val)
-        n_items = len(lst.a)
         # every element of the result is observable: first + 7 * last (+ 13 * middle)
         core_e = Node("index", "int", m, Node("lit", "int", ("int", 0)))
         if n_items >= 2:
@@ -200,6 +214,9 @@ def gen_nest(rnd, depth, visible, names):
         core_e = Node("cond", "int", m, Node("lit", "int", ("int", 1)), Node("lit", "int", ("int", 2)))
     before = use(rnd, visible)
     after = use(rnd, visible)
+    if rnd.random() < 0.4:
+        # a sibling macro evaluated from the same enclosing scope: the first macro's variable must be gone
+        after = Node("bin", "int", "+", after, gen_nest(rnd, 1, visible, names))
     return Node("bin", "int", "+", Node("bin", "int", "+", before, core_e), after)
 
 
@@ -220,6 +237,10 @@ def macro_cases(acc, ctx, n):
             if rnd.random() < 0.6:
                 outer[nm] = ("int", rnd.randint(1, 9) * 10**5)
         node = gen_nest(rnd, rnd.randint(1, 3), {k: "int" for k in outer}, names)
+        unbound = sorted(set(names) - set(outer))
+        if unbound and rnd.random() < 0.15:
+            # a name bound only inside some macro body, used outside it: must stay undeclared (an error)
+            node = Node("bin", "int", "+", node, Node("var", "int", rnd.choice(unbound)))
         src = lang.to_text(node)
         try:
             exp = ("V", lang.Model(outer).ev(node))
